@@ -83,11 +83,13 @@ def chainOf (E : ReEnv) (cfg : Cfg) (e : Entry) (sr : SReq) : Option (List (Stag
         | none => []
       some (allFilters cfg svc rid, ⟨.handler rid, (routeX cfg rid).script⟩, { params := ps, selPath := selPath })
 
-/-- events of user code only (the recover handler and the service-error writer are not filters) -/
-def userEvents (l : List Event) : List Event :=
+/-- events of user code only: the recover handler is not a stage of the chain, and the service-error
+    writer is one only when it is user code (`keepErr`: a `ServiceErrorHandler` was installed — it
+    must receive the pair the container filters passed on; the library's own writer records nothing) -/
+def userEvents (keepErr : Bool) (l : List Event) : List Event :=
   l.filter (fun e => match e.stage with
     | .recover => false
-    | .errorWriter => false
+    | .errorWriter => keepErr
     | _ => true)
 
 /-- attributes and parameters are finite maps: compare them sorted by key -/
@@ -103,8 +105,8 @@ def blind (e : Event) : Event :=
     iff all passed on, and every stage saw what the previous one passed on -/
 def c06Holds (E : ReEnv) (cfg : Cfg) (e : Entry) (sr : SReq) (o : Obs) : Bool :=
   match chainOf E cfg e sr with
-  | none => (userEvents o.log).isEmpty
-  | some (fs, t, cx) => (userEvents o.log).map blind == (userEvents (chainLog fs t cx).1).map blind
+  | none => (userEvents cfg.customErr o.log).isEmpty
+  | some (fs, t, cx) => (userEvents cfg.customErr o.log).map blind == (userEvents cfg.customErr (chainLog fs t cx).1).map blind
 
 /-- the same configuration with every content-coding switch off -/
 def noCoding (cfg : Cfg) : Cfg :=
